@@ -236,7 +236,7 @@ func (r *Run) afterCloseQuiet(f *fsession, cs string, wait time.Duration) {
 func runC14(r *Run) {
 	installHooks()
 	hub.reset()
-	r.st.Rule = "Close injected at the states the property names — idle, k requests in flight, dispatcher busy in a handler with frames queued, reader holding an undelivered frame (tcp.before-add gate), a caller about to enqueue (conn.write.before-enqueue gate), two closers of one connection (reader inside Close when the user closes), writer blocked in the socket write (stalled peer), recovery backing off between failed attempts, recovery authenticating (peer silent; answer already queued behind a blocked handler), give-up about to fire / already fired — on TCP and WebSocket; oracles: Close returns within 1 s, exactly one close callback, no connection, frame or after-reconnect callback afterwards, no goroutine of the library left, no panic; the forced lifecycle actions are replayed by Model/Life.v and the final observables (callbacks, connections, open sockets, goroutines) compared. distinct = distinct request lines"
+	r.st.Rule = "Close injected at the states the property names — idle, k requests in flight, dispatcher busy in a handler with frames queued, reader holding an undelivered frame (tcp.before-add gate), a caller about to enqueue (conn.write.before-enqueue gate), two closers of one connection (reader inside Close when the user closes), writer blocked in the socket write (stalled peer), recovery between its closed test and the dial (logger held), recovery backing off between failed attempts, recovery authenticating (peer silent; answer already queued behind a blocked handler), give-up about to fire / already fired — on TCP and WebSocket; oracles: Close returns within 1 s, exactly one close callback, no connection, frame or after-reconnect callback afterwards, no goroutine of the library left, no panic; the forced lifecycle actions are replayed by Model/Life.v and the final observables (callbacks, connections, open sockets, goroutines) compared. distinct = distinct request lines"
 	for _, trans := range []string{"tcp", "ws"} {
 		ws := trans == "ws"
 		// idle
@@ -402,6 +402,41 @@ func runC14(r *Run) {
 				close(held)
 			}
 			r.st.Evaluations++
+			f.close()
+		}
+	}
+	// Close completes while the recovery stands between its "client closed?" test and the dial (held at the
+	// "start reconnecting." log line, which lies in that window): no connection attempt may follow
+	for _, trans := range []string{"tcp", "ws"} {
+		if f, err := openF(trans); err == nil {
+			held := make(chan struct{})
+			f.tc.log.setHold("start reconnecting", held)
+			peerConns := func() int {
+				if f.tcp != nil {
+					return f.tcp.nconns()
+				}
+				f.ws.mu.Lock()
+				defer f.ws.mu.Unlock()
+				return len(f.ws.all)
+			}
+			f.lk.drop()
+			if f.tc.log.waitCount("start reconnecting", 1, 2*time.Second) {
+				n0 := peerConns()
+				r.checkClose(f.tc, trans+" recovery between its closed test and the dial")
+				f.tc.log.clearHold("start reconnecting")
+				close(held)
+				time.Sleep(400 * time.Millisecond)
+				if n := peerConns(); n != n0 {
+					r.violate(Violation{What: "the client made a connection attempt after Close had returned", Case: trans + ": drop; Close while the recovery stands between its closed test and the dial (logger held at 'start reconnecting.')",
+						Extra: strings.Join(f.tc.log.snapshot(), "\n")})
+				}
+				r.afterCloseQuiet(f, trans+" recovery between its closed test and the dial", 200*time.Millisecond)
+			} else {
+				f.tc.log.clearHold("start reconnecting")
+				close(held)
+			}
+			r.st.Evaluations++
+			r.count("c14.close-before-dial-window." + trans)
 			f.close()
 		}
 	}
